@@ -73,6 +73,10 @@ func genPatterns(r *rand.Rand, rich bool) []PatSpec {
 		// matches nothing inside the mount falls back to this pattern
 		{nil, "$p.$q.info", []string{"", "${p}", "g.${q}", "${q}.${p}"}, 1},
 		{[]string{"sub"}, "$y.extra", []string{"", "${y}"}, 2},
+		// literal nodes without handlers of their own ("far", "away") next
+		// to placeholder siblings: a name ending on such a node belongs to
+		// the placeholder pattern
+		{nil, "model.far.away.leaf", []string{"", "mg"}, 1},
 	}
 	n := 2 + r.IntN(4)
 	perm := r.Perm(len(pool))
@@ -109,7 +113,7 @@ func genPatterns(r *rand.Rand, rich bool) []PatSpec {
 	return out
 }
 
-var tokAlphabet = []string{"1", "2", "3", "set", "new", "x", "sub", "item", "deep"}
+var tokAlphabet = []string{"1", "2", "3", "set", "new", "x", "sub", "item", "deep", "far", "away"}
 
 // instantiate builds a concrete resource name for a pattern.
 func instantiate(r *rand.Rand, full string, small bool) string {
@@ -124,7 +128,7 @@ func instantiate(r *rand.Rand, full string, small bool) string {
 			}
 		case strings.HasPrefix(t, "$"):
 			if small {
-				out = append(out, pick(r, "1", "2", "1", "2", "sub", "item"))
+				out = append(out, pick(r, "1", "2", "1", "2", "sub", "item", "far", "away"))
 			} else {
 				out = append(out, pick(r, tokAlphabet...))
 			}
